@@ -109,8 +109,12 @@ func genC01(t *rapid.T) c1Case {
 	}
 	for gi, n := range names {
 		g := c1Gen{Name: n, Mode: rapid.SampledFrom([]string{"fixed", "new"}).Draw(t, "mode"), Pieces: map[string][]script.Piece{}}
+		plain := rapid.IntRange(0, 2).Draw(t, "nocomments") == 0 // this generator renders no comment at all
+		if plain {
+			feats["comment-free-file"] = true
+		}
 		for ti, tk := range types {
-			gr := &gg{t: t, uniq: fmt.Sprintf("%s%d%d", strings.ToUpper(n[:1])+n[1:], gi, ti), mlBlock: !c1KnownMLBlock, features: feats}
+			gr := &gg{t: t, uniq: fmt.Sprintf("%s%d%d", strings.ToUpper(n[:1])+n[1:], gi, ti), mlBlock: !c1KnownMLBlock, plain: plain, features: feats}
 			var pieces []script.Piece
 			k := rapid.IntRange(0, 4).Draw(t, "ndecls")
 			if rapid.IntRange(0, 11).Draw(t, "big") == 0 {
@@ -147,19 +151,43 @@ func genC01(t *rapid.T) c1Case {
 				}
 				sort.Ints(cuts)
 				prev := 0
+				var parts []string
 				for _, cu := range cuts {
 					if cu > prev {
-						pieces = append(pieces, script.Piece{Kind: "block", Text: string(rs[prev:cu])})
+						parts = append(parts, string(rs[prev:cu]))
 						prev = cu
+					}
+				}
+				parts = append(parts, string(rs[prev:]))
+				if rapid.IntRange(0, 5).Draw(t, "huge") == 0 {
+					// a single very large fragment (buffer sizes of the writer) after the smaller ones
+					var hb strings.Builder
+					fmt.Fprintf(&hb, "\nvar _huge%s = []string{\n", gr.name("h"))
+					n := rapid.SampledFrom([]int{60, 64, 65, 80, 200, 400}).Draw(t, "hugelines")
+					for l := 0; l < n; l++ {
+						fmt.Fprintf(&hb, "\t\"line %04d of a large table: 0123456789 0123456789 0123456789 01234\",\n", l)
+					}
+					hb.WriteString("}\n")
+					parts = append(parts, hb.String())
+					feats["fragment-over-4096-bytes"] = true
+				}
+				if len(parts) > 1 && rapid.Bool().Draw(t, "onerender") {
+					// one Render call whose snippet yields the parts as separate fragments
+					pieces = append(pieces, script.Piece{Kind: "multi", Parts: parts})
+					feats["one-render-several-fragments"] = true
+				} else {
+					for _, pt := range parts {
+						pieces = append(pieces, script.Piece{Kind: "block", Text: pt})
+					}
+					if len(parts) > 1 {
 						feats["declaration-in-several-renders"] = true
 					}
 				}
-				pieces = append(pieces, script.Piece{Kind: "block", Text: string(rs[prev:])})
 			}
 			g.Pieces[tk.pkg+"."+tk.typ] = pieces
 		}
 		if rapid.IntRange(0, 3).Draw(t, "defer") == 0 {
-			gr := &gg{t: t, uniq: fmt.Sprintf("D%d", gi), mlBlock: !c1KnownMLBlock, features: feats}
+			gr := &gg{t: t, uniq: fmt.Sprintf("D%d", gi), mlBlock: !c1KnownMLBlock, plain: plain, features: feats}
 			g.DeferPiece = gr.decls("T0", 1)
 			feats["defer-rendered"] = true
 		}
@@ -217,7 +245,11 @@ func scanTokens(src []byte) (toks []tok, comments string, err error) {
 		case token.SEMICOLON:
 			continue
 		case token.COMMENT:
-			cb.WriteString(normComment(lit))
+			for _, l := range strings.Split(lit, "\n") {
+				if n := normComment(l); n != "" {
+					cb.WriteString(n + "\n")
+				}
+			}
 			continue
 		}
 		if !t.IsLiteral() && t != token.IDENT {
@@ -232,6 +264,32 @@ func scanTokens(src []byte) (toks []tok, comments string, err error) {
 		return nil, "", fmt.Errorf("%s", strings.Join(errs, "; "))
 	}
 	return toks, cb.String(), nil
+}
+
+var directiveLine = regexp.MustCompile(`^(go:|nolint|line |export |[a-z0-9]+:[a-z0-9])`)
+
+// sameCommentsUpToDirectiveOrder: gofmt treats an unindented comment group that abuts the next token as a doc comment and
+// moves its directive lines (//go:..., //nolint:...) behind the text lines. That is formatting, so when directive-like lines
+// are present the comment lines are compared as a multiset instead of as a sequence.
+func sameCommentsUpToDirectiveOrder(got, want string) bool {
+	gl, wl := strings.Split(got, "\n"), strings.Split(want, "\n")
+	hasDirective := false
+	for _, l := range wl {
+		if directiveLine.MatchString(l) {
+			hasDirective = true
+		}
+	}
+	if !hasDirective || len(gl) != len(wl) {
+		return false
+	}
+	sort.Strings(gl)
+	sort.Strings(wl)
+	for i := range gl {
+		if gl[i] != wl[i] {
+			return false
+		}
+	}
+	return true
 }
 
 func normComment(c string) string {
@@ -440,7 +498,7 @@ func checkCanonical(src []byte, gen, pkgName, rendered, goVersion, modPath strin
 			return fmt.Errorf("token %d differs: file has %v %q, rendered %v %q", i, gotToks[i].t, gotToks[i].lit, wantToks[i].t, wantToks[i].lit)
 		}
 	}
-	if gotCmt != wantCmt {
+	if gotCmt != wantCmt && !sameCommentsUpToDirectiveOrder(gotCmt, wantCmt) {
 		return fmt.Errorf("comments differ (blanks ignored): file %q, rendered %q", clip(gotCmt, 300), clip(wantCmt, 300))
 	}
 	return checkFixedPoints(src, goVersion, modPath)
